@@ -40,7 +40,15 @@ def payloadsOf (j : Json) : Option Payloads := do
     let k ← asNat? (← a[1]?)
     let b ← asNat? (← a[2]?)
     pure (p.toList, k, b))
-  pure ⟨bench, run⟩
+  -- profile data file: the JSON columns that `json.loads` accepts (null: the loader does not check)
+  let prof : Option (Text → Bool) :=
+    match j.getObjVal? "profile_json" with
+    | .ok (Json.arr a) =>
+        let l := a.toList.filterMap (fun e => match e.getStr? with | .ok s => some s.toList | _ => none)
+        some (fun js => l.contains js)
+    | .ok (Json.str "any") => some (fun _ => true)
+    | _ => none
+  pure { Payloads.ofLists bench run with profile := prof }
 
 def natArr (l : List Nat) : Json := Json.arr (l.map (fun (n : Nat) => Json.num n)).toArray
 
@@ -88,6 +96,31 @@ def handle (op : String) (j : Json) : Option Json :=
           ("final", stateJson old new ((fs0.run ops).content .data)),
           ("todo", Json.arr (runs.map (fun (r : Nat) => Json.arr #[Json.num r,
               natArr (todo st.loaded ⟨r, 0, invocations, 1⟩)])).toArray)])
+  | "c14.multi" => do
+      -- several data files rewritten by one -r: operation sequence and the contents of all
+      -- files after every prefix
+      let olds ← (← getArr? j "olds").toList.mapM asStr?
+      let cap ← getNat? j "cap"
+      let rws ← (← getArr? j "rewrites").toList.mapM (fun e => do
+        let a ← asArr? e
+        let i ← asNat? (← a[0]?)
+        let ls ← (← asArr? (← a[1]?)).toList.mapM asStr?
+        pure (i, ls.map String.toList))
+      let oldsT := olds.map String.toList
+      let ops := multiOps rws
+      let states := mcrashStates (MFS.start oldsT cap) ops
+      let newOf (jx : Nat) : Option Text := (rws.find? (fun p => p.1 == jx)).map (fun p => p.2.flatten)
+      let tag (jx : Nat) (c : Option Text) : Json :=
+        match c with
+        | none => Json.str "absent"
+        | some t => if some t = oldsT[jx]? then Json.str "old" else if some t = newOf jx then Json.str "new"
+                    else Json.mkObj [("other", Json.str (String.ofList t))]
+      let opName : MOp → String
+        | .create => "create:tmp" | .write _ => "write" | .close => "close"
+        | .replace i => s!"rename:tmp:data{i}"
+      pure (Json.mkObj [
+        ("ops", Json.arr (ops.map (fun o => Json.str (opName o))).toArray),
+        ("states", Json.arr (states.map (fun st => Json.arr (st.zipIdx.map (fun p => tag p.2 p.1)).toArray)).toArray)])
   | "c14.clean" => do
       let text ← getStr? j "text"
       let fs := (FS.start text.toList 8192).run (cleanOps [.data])
